@@ -131,6 +131,69 @@ def run(ctx):
     # ---- the public day / hour views pass the right pillars to the readers (wiring): evaluated with symbolic holders
     # SixtyCycleDay::get_gods(month, day), LunarDay::get_gods ... are covered by C17's sibling checks.
 
+    # ---- wiring: the day / hour views hand the right pillars, in the right order, to the readers
+    from pete import SV, RInt, CellV, NONE, Opt, Symbolic
+    ctx.rule('WIRING', 'day / hour views pass (month pillar, day pillar) resp. (day pillar, hour pillar) to the table readers, in that order, in every copy')
+
+    def scd(mi, di):
+        return SV('SixtyCycleDay', {'solar_day': Symbolic('SolarDay', 0), 'month': SV('SixtyCycleMonth', {'year': SV('SixtyCycleYear', {'year': RInt(2000, 'isize')}), 'month': t.sixty(mi)}), 'day': t.sixty(di)})
+
+    def sch(di, hi):
+        st = SV('SolarTime', {'day': Symbolic('SolarDay', 0), 'hour': RInt((hi % 12) * 2, 'usize'), 'minute': RInt(0, 'usize'), 'second': RInt(0, 'usize')})
+        return SV('SixtyCycleHour', {'solar_time': st, 'day': scd(0, di), 'hour': t.sixty(hi)})
+
+    def lunar_day(scday):
+        lm = SV('LunarMonth', {'year': SV('LunarYear', {'year': RInt(2000, 'isize')}), 'month': RInt(1, 'usize'), 'leap': False, 'day_count': RInt(30, 'usize'), 'index_in_year': RInt(0, 'usize'),
+                               'first_julian_day': SV('JulianDay', {'day': 2451545.0})})
+        return SV('LunarDay', {'month': lm, 'day': RInt(1, 'usize'), 'solar_day': CellV(NONE, 'refcell'), 'sixty_cycle_day': CellV(Opt(scday), 'refcell')})
+
+    def names(l):
+        return [t.name(x) for x in l]
+
+    def wire_day(x):
+        mi, di = x
+        d = scd(mi, di)
+        ld = lunar_day(scd(mi, di))
+        return (names(t.m(d, 'get_gods')), names(t.m(d, 'get_recommends')), names(t.m(d, 'get_avoids')), names(t.m(ld, 'get_gods')), names(t.m(ld, 'get_recommends')), names(t.m(ld, 'get_avoids')))
+
+    def wire_day_orc(x):
+        mi, di = x
+        m, d = t.sixty(mi), t.sixty(di)
+        a = (names(I.call('God::get_day_gods', [m, d])), names(I.call('Taboo::get_day_recommends', [m, d])), names(I.call('Taboo::get_day_avoids', [m, d])))
+        return a + a
+    # month and day pillars chosen with different branches so that a swapped argument order is visible
+    table(ctx, 'WIRING', 'WIRING:day-views', [(mi, di) for mi in (2, 7, 11, 14, 35) for di in (0, 5, 13, 29, 46, 59)], wire_day, wire_day_orc,
+          'SixtyCycleDay and LunarDay getters return the table entries of (their month pillar, their day pillar)', lambda x: u'月%s 日%s' % (G.sixty(x[0]), G.sixty(x[1])), fn_site(p, 'SixtyCycleDay::get_gods'))
+
+    def lunar_hour(di, hi):
+        # a lunar hour whose own day pillar is di (first_julian_day chosen accordingly) and whose memo holds the sexagenary-hour view
+        n = 2451545
+        while (n + 49) % 60 != di:
+            n += 1
+        lm = SV('LunarMonth', {'year': SV('LunarYear', {'year': RInt(2000, 'isize')}), 'month': RInt(1, 'usize'), 'leap': False, 'day_count': RInt(30, 'usize'), 'index_in_year': RInt(0, 'usize'),
+                               'first_julian_day': SV('JulianDay', {'day': float(n)})})
+        ld = SV('LunarDay', {'month': lm, 'day': RInt(1, 'usize'), 'solar_day': CellV(NONE, 'refcell'), 'sixty_cycle_day': CellV(NONE, 'refcell')})
+        hour = (hi % 12) * 2
+        hp = G.STEMS[(G.STEMS.index(G.FIVE_RATS[G.STEMS[di % 10]]) + hi % 12) % 10] + G.BRANCHES[hi % 12]
+        hidx = [G.sixty(k) for k in range(60)].index(hp)
+        return SV('LunarHour', {'day': ld, 'hour': RInt(hour, 'usize'), 'minute': RInt(0, 'usize'), 'second': RInt(0, 'usize'), 'solar_time': CellV(NONE, 'refcell'),
+                                'sixty_cycle_hour': CellV(Opt(sch(di, hidx)), 'refcell')}), hidx
+
+    def wire_hour(x):
+        di, hb = x
+        lh, hidx = lunar_hour(di, hb)
+        h = sch(di, hidx)
+        return (names(t.m(h, 'get_recommends')), names(t.m(h, 'get_avoids')), names(t.m(lh, 'get_recommends')), names(t.m(lh, 'get_avoids')))
+
+    def wire_hour_orc(x):
+        di, hb = x
+        _, hidx = lunar_hour(di, hb)
+        d, h = t.sixty(di), t.sixty(hidx)
+        a = (names(I.call('Taboo::get_hour_recommends', [d, h])), names(I.call('Taboo::get_hour_avoids', [d, h])))
+        return a + a
+    table(ctx, 'WIRING', 'WIRING:hour-views', [(di, hb) for di in (0, 7, 13, 29, 46) for hb in (0, 3, 6, 11)], wire_hour, wire_hour_orc,
+          'SixtyCycleHour and LunarHour getters return the table entries of (their day pillar, their hour pillar)', lambda x: u'日%s 时%s' % (G.sixty(x[0]), G.BRANCHES[x[1]]), fn_site(p, 'SixtyCycleHour::get_recommends'))
+
     # ---- luck split
     names = t.names('GOD_NAMES')
 
